@@ -1089,6 +1089,10 @@ func (g *GoFakeS3) ensureBucketExists(bucket string) error {
 		return err
 	}
 	if !exists && g.autoBucket {
+		// a bucket that is created on the fly is a bucket like any other:
+		if err := ValidateBucketName(bucket); err != nil {
+			return err
+		}
 		if err := g.storage.CreateBucket(bucket); err != nil {
 			g.log.Print(LogErr, "autobucket create failed:", err)
 			return ResourceError(ErrNoSuchBucket, bucket)
